@@ -484,3 +484,41 @@ PROPS["C08"] = dict(
     rule="cases: every well-formed index of MC_IndexMap (<= MaxSecs sections at offsets from {(0,0),(0,4),(1,2),(2,0)}, section maps: empty / one token / two lines with a name, shared source names, partial contents and an ignore list / sourceless + range token; unresolved sections; one nested index in thorough) x 40 grid queries; seeded: up to 12 sections (30 tokens each), mid-line starts, Hermes sections, nested indexes to depth 2, 40 random queries; distinct = distinct (index projection, queries); non-trivial = at least one section",
     assumptions=COMMON_ASSUMPTIONS,
 )
+
+def _corrupt_c18(e):
+    o = e["out"]
+    if e["op"] == "locate":
+        if o["reader"]:
+            o["reader"][0]["legacy"] = not o["reader"][0]["legacy"]
+        else:
+            o["reader"] = [{"legacy": False, "url": [120]}]
+        return True
+    if e["op"] == "detect":
+        o["detect_slice"] = not o["detect_slice"]
+        return True
+    if e["op"] == "dataurl":
+        if o["direct"].get("toks"):
+            o["direct"]["toks"][0][1] += 1
+        else:
+            o["found_legacy"] = not o["found_legacy"]
+        return True
+    return False
+
+PROPS["C18"] = dict(
+    level="model_checking",
+    level_text="Detector.tla defines reference discovery declaratively (first line beginning with '//# sourceMappingURL=' or '//@ ...', URL trimmed, legacy flag) and as a line-by-line scan; TLC checks scan = declarative and 'URL is trimmed' for every file assembled from 8 line kinds x 3 endings, and that the preamble the writer emits is in the reader's accepted set. Every file is run through the reader, slice and SourceView entry points and judged by TLC; every map of the C01 universe is turned into a data URL, decoded directly and through a discovered comment, and judged with the round-trip relation of MapModel.tla; every serialised regular/index/Hermes map must be recognised by both detection predicates.",
+    level_note="base64 coding of the payload is not modelled (only its round trip is observed); Unicode whitespace is the closed set WS of Detector.tla",
+    technique="TLA+ declarative + scanning specification of reference discovery, TLC bounded model checking, trace validation of real locate/to_data_url/decode_data_url/is_sourcemap results",
+    mc=[
+        dict(module="MC_Detector", cfg="MC_Detector_quick.cfg", tiers=("quick",), workers=8),
+        dict(module="MC_Encode", cfg="MC_Encode_quick.cfg", tiers=("quick",), workers=8),
+        dict(module="MC_Detector", cfg="MC_Detector_thorough.cfg", tiers=("thorough",), workers=14, timeout=3400, heap="24g"),
+        dict(module="MC_Encode", cfg="MC_Encode_thorough.cfg", tiers=("thorough",), workers=14, timeout=3400, heap="24g"),
+    ],
+    trace="Trace_C18",
+    drive=dict(quick=dict(n=800, size=3), thorough=dict(n=16000, size=8)),
+    nontrivial=lambda e: (e["op"] == "locate" and len(e["args"]["file"]) > 3) or e["op"] in ("dataurl", "detect"),
+    corrupt=_corrupt_c18,
+    rule="cases: every file of MC_Detector (<= MaxLines lines from {code, ref, legacy ref, indented, mid-line look-alike, empty URL, URL with blanks, empty line} x {LF, CRLF, no final newline}); every token list of MC_Encode as a map (three construction routes) for data URLs and detection; seeded files (case/spacing look-alikes, lone CR, non-ASCII blanks, data: URLs) and random flat/Hermes/index maps; distinct = distinct (op, args); non-trivial = file longer than 3 characters or any map event",
+    assumptions=COMMON_ASSUMPTIONS,
+)
